@@ -18,7 +18,18 @@
   response for it is dropped.
   Scheduling is left open: executor jobs and loop callbacks may run in any order and at any
   later time (the real loop is FIFO; every FIFO schedule is one of the schedules here).
-  `safe_mode` is the default (False).
+  `AccessoryDriver.safe_mode` is a field of the state (default False): with it set, `finish_pair`
+  does not touch the advertisement at all.
+
+  Application side (driver API, no request and hence no response involved):
+    * `AccessoryDriver.config_changed()`  — `state.increment_config_version()`, persist,
+      `update_advertisement()` (a loop callback, no executor hop),
+    * `AccessoryDriver.update_advertisement()` called directly,
+    * `AccessoryDriver.unpair(uuid)` called directly — `State.remove_paired_client` and persist,
+      *no* refresh and no session teardown (both belong to the request path).
+  A published record is tagged with its cause: `some rid` for the `finish_pair` of request `rid`,
+  `none` for an application-requested refresh.  The record is rebuilt from the *current* state
+  (`record`): name, category, mac, the current configuration number and the current pairing flag.
 -/
 import HapModel.Advert
 namespace Hap.AdvertSys
@@ -92,12 +103,14 @@ inductive Obs where
   | write (conn rid : Nat)
   /-- the session cipher is installed on `conn` because of request `rid` -/
   | cipher (conn rid : Nat)
-  /-- a refreshed record is passed to the advertiser; caused by request `rid` -/
-  | publish (rid : Nat) (txt : List (String × String))
+  /-- a refreshed record is passed to the advertiser; caused by request `rid`
+      (`none`: requested by the application, `config_changed` / `update_advertisement`) -/
+  | publish (cause : Option Nat) (txt : List (String × String))
 deriving DecidableEq, Repr
 
 structure Sys where
-  /-- the static part of the record (name, category, mac, c#); `paired` is overwritten -/
+  /-- name, category, mac, setup hash and the *current* `config_version`; `paired` is
+      overwritten from the pairing table when a record is built -/
   info : Info
   paired : Pairings
   nextRid : Nat
@@ -107,17 +120,19 @@ structure Sys where
   deferred : List (Nat × Nat)
   /-- `finish_pair` jobs handed to the executor, tagged with the causing request -/
   execQ : List Nat
-  /-- `async_update_advertisement` callbacks queued in the loop -/
-  loopQ : List Nat
+  /-- `async_update_advertisement` callbacks queued in the loop, tagged with their cause -/
+  loopQ : List (Option Nat)
   /-- verified controller of each connection (`handler.client_uuid`); connections that are
       not listed are unverified -/
   sessions : List (Nat × Client)
   /-- connections whose transport was closed by `_close_unpaired_sessions` -/
   closed : List Nat
+  /-- `AccessoryDriver.safe_mode` -/
+  safeMode : Bool := false
 
-def init (info : Info) (p : Pairings) (sessions : List (Nat × Client)) : Sys :=
+def init (info : Info) (p : Pairings) (sessions : List (Nat × Client)) (safe : Bool := false) : Sys :=
   { info, paired := p, nextRid := 0, log := [], deferred := [], execQ := [], loopQ := [],
-    sessions, closed := [] }
+    sessions, closed := [], safeMode := safe }
 
 /-- `handler.client_uuid` of connection `conn` -/
 def sessionOf (s : Sys) (conn : Nat) : Option Client :=
@@ -157,7 +172,17 @@ inductive Step where
   | execRun (i : Nat)
   /-- the loop runs its i-th pending `async_update_advertisement` -/
   | loopRun (i : Nat)
+  /-- the application calls `driver.config_changed()` -/
+  | configChanged
+  /-- the application calls `driver.update_advertisement()` -/
+  | appRefresh
+  /-- the application calls `driver.unpair(uuid)` for a paired controller (for an unknown one
+      the real call raises `KeyError` before touching anything) -/
+  | appUnpair (client : Client)
 deriving DecidableEq, Repr
+
+/-- `State.increment_config_version` on the number alone -/
+def bump (n : Nat) : Nat := (incr ({ cfg := n, hsh := none } : Cfg Unit)).cfg
 
 def step (s : Sys) : Step → Sys
   | .request conn r =>
@@ -174,31 +199,41 @@ def step (s : Sys) : Step → Sys
   | .execRun i =>
     match s.execQ[i]? with
     | none => s
-    | some rid => { s with execQ := s.execQ.eraseIdx i, loopQ := s.loopQ ++ [rid] }
+    | some rid =>
+      -- finish_pair: `if not self.safe_mode: self.update_advertisement()`
+      { s with execQ := s.execQ.eraseIdx i, loopQ := if s.safeMode then s.loopQ else s.loopQ ++ [some rid] }
   | .loopRun i =>
     match s.loopQ[i]? with
     | none => s
-    | some rid =>
-      { s with loopQ := s.loopQ.eraseIdx i, log := Obs.publish rid (record s) :: s.log }
+    | some cause =>
+      { s with loopQ := s.loopQ.eraseIdx i, log := Obs.publish cause (record s) :: s.log }
+  | .configChanged =>
+    { s with info := { s.info with cfg := bump s.info.cfg }, loopQ := s.loopQ ++ [none] }
+  | .appRefresh => { s with loopQ := s.loopQ ++ [none] }
+  | .appUnpair c => if isPaired s.paired c then { s with paired := removePairing s.paired c } else s
 
 def run (s : Sys) : List Step → Sys
   | [] => s
   | st :: rest => run (step s st) rest
 
-/-- the `sf` value of the record the advertiser holds: that of the newest published record,
-    or of the record registered at start (`initial`) if none was published yet -/
-def advertisedSf (initial : Option String) : List Obs → Option String
+/-- the record the advertiser holds: the newest published one, or the one registered at start
+    (`initial`) if none was published yet -/
+def advertised (initial : List (String × String)) : List Obs → List (String × String)
   | [] => initial
-  | Obs.publish _ txt :: _ => lookup "sf" txt
-  | _ :: rest => advertisedSf initial rest
+  | Obs.publish _ txt :: _ => txt
+  | _ :: rest => advertised initial rest
 
-/-- `sf` of the record registered by `async_start` -/
-def initialSf (info : Info) (p : Pairings) : Option String := lookup "sf" (record (init info p []))
+/-- the record registered by `async_start` -/
+def initialRecord (info : Info) (p : Pairings) : List (String × String) := record (init info p [])
+
+/-- the `sf` value of the record the advertiser holds -/
+def advertisedSf (initial : List (String × String)) (log : List Obs) : Option String :=
+  lookup "sf" (advertised initial log)
 
 /-- variant with the refresh scheduled *before* the response write (what `finish_pair`'s doc
     comment warns against); used for the counterexample only -/
 def processResponseEarly (s : Sys) (conn rid : Nat) (r : Resp) : Sys :=
-  let s := if r.pairingChanged then { s with log := Obs.publish rid (record s) :: s.log } else s
+  let s := if r.pairingChanged then { s with log := Obs.publish (some rid) (record s) :: s.log } else s
   if r.task then { s with deferred := s.deferred ++ [(conn, rid)] }
   else { s with log := Obs.write conn rid :: s.log }
 
